@@ -48,6 +48,12 @@ type GhostField struct {
 
 type GhostParam struct{ Name, Type string }
 
+type Dispatch struct {
+	Callee string
+	Ord    int
+	Impl   string // pkg.Type.Method
+}
+
 type Contract struct {
 	Key      string // "Deque.PushFront" or "positiveMod" (package-local) or "slices.Index" for ext
 	Pkg      string // package path the block was declared in
@@ -65,6 +71,7 @@ type Contract struct {
 	Loops    map[int]*LoopSpec
 	InLoops  map[string]*LoopSpec // loops of inlined callees: "Reduce.0"
 	InlineCalls []string
+	Dispatch []Dispatch
 	Pure     bool
 	Inline   bool
 	Params   []string // for ext blocks: parameter names
@@ -121,7 +128,7 @@ type PkgSpec struct {
 	Axioms    []*Clause
 }
 
-var kwRe = regexp.MustCompile(`^(pure|pred|ghostinit|ghost|func|props|requires|ensures|panics|pensures|modifies|ghostparam|uses|inlinecall|loop|ext|lemma|axiom|inline|trusted|decreases|ispure|params|results|end|sort|ufun|callback|before|after|invokes)\b`)
+var kwRe = regexp.MustCompile(`^(pure|pred|ghostinit|ghost|func|props|requires|ensures|panics|pensures|modifies|ghostparam|uses|inlinecall|dispatch|loop|ext|lemma|axiom|inline|trusted|decreases|ispure|params|results|end|sort|ufun|callback|before|after|invokes)\b`)
 
 func loadPkgSpec(dir, pkgPath string) (*PkgSpec, error) {
 	ps := &PkgSpec{Path: pkgPath, Macros: map[string]*Macro{}, Ghosts: map[string]*GhostField{}, Contracts: map[string]*Contract{}, Sorts: map[string]bool{}, UFuns: map[string]*UFun{}, Callbacks: map[string]*Contract{}}
@@ -382,6 +389,17 @@ func (ps *PkgSpec) parseFile(file, data string) error {
 				cur.Modifies = append(cur.Modifies, e)
 				cur.ModSrc = append(cur.ModSrc, part)
 			}
+		case "dispatch":
+			fs := strings.Fields(rest)
+			if len(fs) != 2 {
+				return errf("dispatch CALL[k] pkg.Type.Method")
+			}
+			d := Dispatch{Callee: fs[0], Impl: fs[1]}
+			if bi := strings.Index(fs[0], "["); bi >= 0 {
+				d.Callee = fs[0][:bi]
+				d.Ord, _ = strconv.Atoi(strings.Trim(fs[0][bi:], "[]"))
+			}
+			cur.Dispatch = append(cur.Dispatch, d)
 		case "inlinecall":
 			cur.InlineCalls = append(cur.InlineCalls, strings.Fields(strings.ReplaceAll(rest, ",", " "))...)
 		case "uses":
